@@ -416,6 +416,7 @@ def _run(chk, drv):
         for kind, inp, detail in check_member(a, b):
             chk.fail(kind, inp, detail)
     multi_field_messages(chk, sorted(seen_fields))
+    near_name_siblings(chk, sorted(seen_fields))
     chk.flush()
     _cls_cache.clear()
 
@@ -533,6 +534,38 @@ def multi_field_messages(chk, fields):
             if isinstance(back, Exception) or back != m:
                 chk.fail("multi-field-roundtrip:" + cname, {"fields": fs}, repr(back))
         chk.count("multi_field_messages")
+
+
+def near_name_siblings(chk, fields):
+    """fields of ONE message whose names are made of the same letters and digits and differ only in where the
+    underscores are (a_bc / ab_c / abc): protoc accepts them side by side (their JSON names differ), each keeps its
+    value alone, so each must keep its own value next to the others — a key must come back to the SAME field"""
+    groups = {}
+    for f in fields:
+        if field_words_alpha2(f) and valid_name(f) and not shadows_api(f):
+            groups.setdefault("".join(c for c in f if c.isalnum()).lower(), []).append(f)
+    todo = [g for g in groups.values() if len(g) > 1]
+    chk.rng.shuffle(todo)
+    for g in todo[:400 if chk.tier == "quick" else 6000]:
+        keep, keys = [], set()
+        for f in g:
+            # distinct keys in both casings and distinct protoc JSON names (protoc >= 22 compares those exactly)
+            ks = {"camel:%s" % call(betterproto.casing.camel_case, f), "snake:%s" % call(betterproto.casing.snake_case, f),
+                  "json:" + re.sub(r"_([a-zA-Z0-9])", lambda m: m.group(1).upper(), f).replace("_", "")}
+            if not (ks & keys) and not check_roundtrip(f, f):
+                keep.append(f)
+                keys |= ks
+        if len(keep) < 2:
+            continue
+        fs = keep[:6]
+        M = dataclasses.make_dataclass("MM", [(f, int, betterproto.int32_field(i + 1)) for i, f in enumerate(fs)],
+                                       bases=(betterproto.Message,))
+        m = M(**{f: i + 1 for i, f in enumerate(fs)})
+        for cname, cas in (("camel", betterproto.Casing.CAMEL), ("snake", betterproto.Casing.SNAKE)):
+            back = call(lambda: M().from_dict(m.to_dict(casing=cas)))
+            if isinstance(back, Exception) or back != m:
+                chk.fail("multi-field-roundtrip:" + cname, {"fields": fs, "near_names": True}, repr(back))
+        chk.count("near_name_sibling_messages")
 
 
 # ------------------------------------------------------------------ classification / replay
